@@ -10,7 +10,7 @@ import (
 // C10-K1: Go QuickLZ round trip. Inputs of 1..10 bytes (every byte symbolic) are the
 // literal-only regime of the format; longer inputs enter the match loop, whose hash-table
 // index depends on the data (4096-way symbolic indexing per step) and are explored only with
-// concrete repetitive bodies carrying a symbolic tail (the last 4 bytes are always literals).
+// concrete periodic bodies (period 1, 2, 3, 4, 8) carrying a symbolic tail (the last 4 bytes are always literals).
 func VH_C10_K1_go_roundtrip() {
 	level := []int{1, 3}[vrt.Choice("level", 2)]
 	var src []byte
@@ -18,13 +18,7 @@ func VH_C10_K1_go_roundtrip() {
 		n := 1 + vrt.Choice("len", 10)
 		src = vrt.Bytes("b", n)
 	} else {
-		n := []int{11, 12, 16, 40, 64}[vrt.Choice("biglen", 5)]
-		src = make([]byte, n)
-		for i := range src {
-			src[i] = byte("abcabcab"[i%8])
-		}
-		tail := vrt.Bytes("tail", 2)
-		src[n-1], src[n-2] = tail[0], tail[1]
+		src = repetitive()
 	}
 	c := Compress(src, level)
 	vrt.Assert("header-sizes", vrt.All(SizeCompressed(c) == len(c), SizeDecompressed(c) == len(src)))
@@ -67,8 +61,8 @@ func cbytes(b []byte) cmem.CArray {
 // regime 0: inputs of 1..10 bytes, every byte symbolic (neither compressor enters its match
 // loop); regime 1: 11..14 bytes, every byte symbolic, compressed by C only (the C match loop runs
 // for 1..4 positions; the hash table is a sparse region with solver-decided aliasing; the Go
-// compressor's 4096-way table index is outside reach for free bytes); regime 2: repetitive
-// concrete bodies of 11..64 bytes with a symbolic 2-byte tail, both directions (matches are
+// compressor's 4096-way table index is outside reach for free bytes); regime 2: concrete periodic
+// bodies (period 1, 2, 3, 4, 8) of 11..64 bytes with a symbolic 2-byte tail, both directions (matches are
 // found and emitted by both compressors).
 func VH_C10_K3_cross() {
 	vrt.QlzReal()
@@ -82,13 +76,7 @@ func VH_C10_K3_cross() {
 		src = vrt.Bytes("b", 11+vrt.Choice("len", tiered(4, 6)))
 		goToo = false
 	default:
-		n := []int{11, 12, 16, 40, 64}[vrt.Choice("biglen", 5)]
-		src = make([]byte, n)
-		for i := range src {
-			src[i] = byte("abcabcab"[i%8])
-		}
-		tail := vrt.Bytes("tail", 2)
-		src[n-1], src[n-2] = tail[0], tail[1]
+		src = repetitive()
 	}
 	n := len(src)
 	orig := append([]byte(nil), src...)
@@ -143,6 +131,21 @@ func VH_C10_K4_c_safe() {
 		vrt.Reach("rejected")
 	}
 	src.Free()
+}
+
+// repetitive returns a concrete periodic body (period 1, 2, 3, 4 or 8: runs, alternations and
+// longer repeats, so that matches at every small offset are found and emitted) of 11..64 bytes
+// whose last two bytes are symbolic.
+func repetitive() []byte {
+	pat := []string{"a", "ab", "abc", "abcd", "abcabcab"}[vrt.Choice("pattern", 5)]
+	n := []int{11, 12, 16, 24, 40, 64}[vrt.Choice("biglen", 6)]
+	src := make([]byte, n)
+	for i := range src {
+		src[i] = pat[i%len(pat)]
+	}
+	tail := vrt.Bytes("tail", 2)
+	src[n-1], src[n-2] = tail[0], tail[1]
+	return src
 }
 
 func tiered(quick, thorough int) int {
